@@ -346,6 +346,7 @@ def run(ctx):
     appropriate(ctx, tm)
     double_escape_tests(ctx, tm)
     cdata_terminator(ctx, tm)
+    cdata_guard(ctx, tm)
     cdata_nul(ctx, tm)
     from . import wslint
     wslint.run(ctx, "C02.9")
@@ -480,6 +481,23 @@ def cdata_terminator(ctx, tm):
                     "cdataSectionState ends the section at ]]> but removes %s instead of exactly the two brackets: text such as "
                     "`a]]]>` loses (or keeps) brackets that belong to the content" % ("`%s`" % t["strip"] if t["strip"] else "nothing"))],
             detail=t)
+
+
+def cdata_guard(ctx, tm):
+    """`<![CDATA[` opens a CDATA section only when the adjusted current node is *not an HTML element*.  "HTML element" is
+    whatever namespace the tree builder gives HTML elements (None with namespaceHTMLElements=False), so the test compares with
+    the tree's default namespace, not with a fixed URI."""
+    r = ctx.r
+    g = getattr(tm, "cdata_guard", None)
+    if g is None:
+        raise AnalysisError("markupDeclarationOpenState: CDATA guard not found")
+    r.idiom("C02.4", g["compared_with"] == "self.parser.tree.defaultNamespace", "cdata-guard-default-namespace", "%s:%d" % (REL, g["line"]),
+            "CDATA guard compares the current node's namespace with `%s` (not recognised)" % g["compared_with"],
+            wrong=[(g["constant"] != "<not constant>",
+                    "markupDeclarationOpenState compares the current node's namespace with the constant %r: with "
+                    "namespaceHTMLElements=False HTML elements carry namespace None, so `<div><![CDATA[x]]>` opens a CDATA section in "
+                    "HTML content (the standard: a bogus comment)" % (g["constant"],))],
+            detail=g)
 
 
 def cdata_nul(ctx, tm):
